@@ -413,6 +413,10 @@ func Check(env *core.Env, rep *core.Report) *core.Result {
 		}
 	})
 
+	// (3b) the recorded result of a task (flags, exit code, captured output, error message) under
+	// each format, on the real TaskRunner
+	atomic.AddInt64(&evals, int64(checkFormatResult(env, add)))
+
 	// (4) a task's "Finished" line against the spinner's drawing goroutine (Spinner.tla)
 	spinFinishes := checkSpinner(env, add, note)
 	atomic.AddInt64(&evals, int64(spinFinishes))
